@@ -115,12 +115,13 @@ def _tag(k):
     return tag_for_keyword(k)
 
 
-TXT = "aAbB_%1"
-IDS = ["a", "A", "a1", "A1", "a_", "a%", "ab", "aB", "Ab", "a_b", "aXb", "a%b", "_", "%", "1", "b-1", "a*", "a?b"]
+TXT = "aAbB_%1[]"  # incl. the characters SQL LIKE and GLOB (but not PS3.4) give a meaning to
+IDS = ["a", "A", "a1", "A1", "a_", "a%", "ab", "aB", "Ab", "a_b", "aXb", "a%b", "_", "%", "1", "b-1", "a*", "a?b",
+       "a[1]", "a[b", "[ab]1", "a]", "[a-b]", "[^a]b"]
 NAMES = ["doe", "Doe", "DOE", "d_e", "d%", "doe1", "dOe", "x", "_oe", ""]
 DATES = ["20191231", "20200101", "20200102", "20200103", "20210101"]
 TIMES = ["000000", "115959", "120000", "120001", "235959"]
-SHS = ["a", "A", "a1", "A_", "a%", "1", "b-1", "ab", "aB", ""]
+SHS = ["a", "A", "a1", "A_", "a%", "1", "b-1", "ab", "aB", "", "a[1]", "[ab]"]
 MODS = ["CT", "ct", "MR", "C_", "C%", "CX", "Ct"]
 
 
